@@ -97,3 +97,36 @@ Definition entry_ok (e : memo_entry) : bool :=
   | ValueKeyed => true
   | IdentityKeyed d => d
   end && forallb ident_param_ok (me_params e).
+
+(* ---------- process-level mutable state beyond lru_cache (tables regenerated into Gen/C08StateTable.v) ---------- *)
+
+(* objects that live as long as the process: created at import or re-bound through `global` *)
+Inductive state_kind : Type :=
+| SModuleContainer      (* list/dict/set bound at module level *)
+| SClassContainer       (* ... in a class body *)
+| SDefaultArg           (* mutable default argument *)
+| SGlobalRebind.        (* module name assigned inside a function through `global` *)
+
+Record state_entry : Type := mkSE {
+  se_name : string; se_kind : state_kind;
+  se_mutated : bool;        (* the source writes into it (item assignment, mutator call, rebinding) *)
+  se_keyed_memo : bool }.   (* every write is a guarded get-or-create / initialise-once: a memo of values that do not
+                               depend on the run (keys compared by value) *)
+
+(* a run cannot leave anything behind in an object that is never written, nor - observably - in a keyed memo *)
+Definition state_ok (e : state_entry) : bool := negb (se_mutated e) || se_keyed_memo e.
+
+(* where the DefaultValue= / value= of a Parameter construction comes from *)
+Inductive default_kind : Type :=
+| DFresh        (* literal or call evaluated inside a function: a new object per instantiation *)
+| DScalar       (* enum member / immutable scalar *)
+| DSelfAttr     (* attribute of self: belongs to the objects of this run *)
+| DLocal        (* local variable of the constructor *)
+| DShared       (* a module/class-level container, or a construction executed at import: ONE object for all runs -
+                   the parameter's value aliases it, so a run that sets the parameter rewrites the default *)
+| DOther.       (* not recognised *)
+
+Record param_default : Type := mkPD { pd_where : string; pd_expr : string; pd_kind : default_kind }.
+
+Definition default_ok (d : param_default) : bool :=
+  match pd_kind d with DShared | DOther => false | _ => true end.
